@@ -357,7 +357,7 @@ fn plan_topn(
     if let Some(limit) = ol.limit {
         // Pre-truncate each shard: a shard's contribution to the global
         // top-N is within ITS OWN top-(N+offset).
-        let keep = limit + ol.offset.unwrap_or(0);
+        let keep = limit.saturating_add(ol.offset.unwrap_or(0));
         if !ol.order_by.is_empty() {
             partial_sql.push_str(" ORDER BY ");
             partial_sql.push_str(
